@@ -6,12 +6,19 @@ import Driver.Literal
 import Driver.Enc
 import Driver.AbsFmt
 import Driver.Cursor
+import Driver.FPCore
+import Driver.Storage
+import Driver.Analysis
+import Driver.Sim
 open Fpy Fpy.Drv
 
-def handlers : List (String → Option (P String)) := [handleNum, handleCheck, handleExact, handleLiteral, handleEnc, handleAbsFmt, handleCursor]
+def handlers : List (String → Option (P String)) := [handleNum, handleCheck, handleExact, handleLiteral, handleEnc, handleAbsFmt, handleCursor, handleFPCore, handleStorage, handleAnalysis]
 
 def handleLine (line : String) : String :=
   match handleLangLine line with
+  | some out => out
+  | none =>
+  match handleSimLine line with
   | some out => out
   | none =>
   let toks := (line.splitOn " ").filter (· != "")
